@@ -317,6 +317,12 @@ func (p *parser) mul() *Expr {
 }
 
 func (p *parser) unary() *Expr {
+	if p.isOp("*") {
+		// pointer type written as an argument of as(T, x) / unbox(v, T): kept as text
+		p.next()
+		x := p.unary()
+		return &Expr{Op: "un", Name: "*", Args: []*Expr{x}}
+	}
 	if p.isOp("!") || p.isOp("-") {
 		op := p.next().text
 		x := p.unary()
@@ -844,6 +850,11 @@ func splitTop(s string, sep byte) []string {
 
 func parseModItem(s string) (ModItem, error) {
 	fs := strings.Fields(s)
+	if strings.HasPrefix(s, "sent(") && strings.HasSuffix(s, ")") {
+		// "sent(ch)": the ghost count of messages sent on channel ch
+		e, err := parseExpr(strings.TrimSpace(s[len("sent(") : len(s)-1]))
+		return ModItem{Kind: "sent", Expr: e}, err
+	}
 	if len(fs) >= 2 && (fs[0] == "map" || fs[0] == "mem" || fs[0] == "cell") {
 		e, err := parseExpr(strings.TrimSpace(s[len(fs[0]):]))
 		return ModItem{Kind: fs[0], Expr: e}, err
